@@ -8,6 +8,7 @@ import (
 	"bytes"
 	"crypto"
 	"crypto/ecdsa"
+	"crypto/hmac"
 	"crypto/rand"
 	"crypto/rsa"
 	"crypto/sha256"
@@ -18,6 +19,7 @@ import (
 	"encoding/json"
 	"fmt"
 	"math/big"
+	"sort"
 	"strings"
 	"time"
 )
@@ -92,6 +94,15 @@ func rawSign(alg string, key crypto.Signer, input []byte) []byte {
 	h, _, sum := hashFor(alg)
 	d := sum(input)
 	switch alg[:2] {
+	case "HS":
+		// the classic confusion: HMAC keyed with the (public) SubjectPublicKeyInfo of the leaf
+		pub, err := x509.MarshalPKIXPublicKey(key.Public())
+		if err != nil {
+			return nil
+		}
+		m := hmac.New(sha256.New, pub)
+		m.Write(input)
+		return m.Sum(nil)
 	case "PS":
 		k, ok := key.(*rsa.PrivateKey)
 		if !ok {
@@ -275,7 +286,50 @@ func exactToken(raw string) string {
 	return canonAny(v)
 }
 
+// canonAny: canonical token of a decoded JSON value; numbers are rendered as exact rationals so that
+// 1.5e3 and 1500 are the same token while 9007199254740993 and 9007199254740992 are not
 func canonAny(v any) string {
+	switch x := v.(type) {
+	case nil:
+		return "null"
+	case bool:
+		return fmt.Sprint(x)
+	case string:
+		return jsonStr(x)
+	case float64:
+		r := new(big.Rat)
+		if r.SetFloat64(x) == nil {
+			return fmt.Sprintf("num:%v", x)
+		}
+		return "num:" + r.String()
+	case json.Number:
+		r, ok := new(big.Rat).SetString(string(x))
+		if !ok {
+			return "num?:" + string(x)
+		}
+		return "num:" + r.String()
+	case int:
+		return fmt.Sprintf("num:%d/1", x)
+	case int64:
+		return fmt.Sprintf("num:%d/1", x)
+	case []any:
+		p := make([]string, len(x))
+		for i, e := range x {
+			p[i] = canonAny(e)
+		}
+		return "[" + strings.Join(p, ",") + "]"
+	case map[string]any:
+		keys := make([]string, 0, len(x))
+		for k := range x {
+			keys = append(keys, k)
+		}
+		sort.Strings(keys)
+		p := make([]string, len(keys))
+		for i, k := range keys {
+			p[i] = jsonStr(k) + ":" + canonAny(x[k])
+		}
+		return "{" + strings.Join(p, ",") + "}"
+	}
 	b, err := json.Marshal(v)
 	if err != nil {
 		return fmt.Sprintf("unmarshalable:%T", v)
